@@ -70,4 +70,23 @@ impl ResolveRegistry {
 
         resolved
     }
+
+    #[cfg(feature = "crux_verif")]
+    pub(crate) fn verif_entries(&self) -> Vec<(u32, crate::verif::RegistryKind)> {
+        use crate::verif::RegistryKind;
+
+        self.0
+            .lock()
+            .expect("Registry Mutex poisoned")
+            .iter()
+            .map(|(id, entry)| {
+                let kind = match entry {
+                    ResolveSerialized::Never => RegistryKind::Never,
+                    ResolveSerialized::Once(_) => RegistryKind::Once,
+                    ResolveSerialized::Many(_) => RegistryKind::Many,
+                };
+                (id as u32, kind)
+            })
+            .collect()
+    }
 }
